@@ -197,6 +197,37 @@ pub fn run(ctx: &Ctx) -> i32 {
         });
     }
 
+
+    // layer flag words other than visible / hidden: only bit 0 decides visibility
+    let maxf = if thorough { 5 } else { 4 };
+    for n in 1..=maxf {
+        let fam = format!("forest-flags-n{}", n);
+        if !ctx.wants_family(&fam) {
+            continue;
+        }
+        let words: [u16; 6] = [3, 2, 1 | 0x40, 0x40 | 2, 1 | 4 | 8 | 0x10 | 0x20, 0xFFFE];
+        let fs = forests(n);
+        let combos = product_vec(&vec![words.len(); n]);
+        ctx.family(&fam, (fs.len() * combos.len()) as u64, &format!("all {} forests of {} layers x every assignment of the flag words {{visible+editable, editable only, visible+reference, reference+editable (hidden), visible+locked+background+continuous+collapsed, all bits but visible}} to the layers: is_visible() and the frame image depend on bit 0 of the layer and of its ancestors only", fs.len(), n), true);
+        fs.par_iter().for_each(|lv| {
+            for c in &combos {
+                let case = || format!("{:?} flags={:?}", lv, c.iter().map(|i| words[*i]).collect::<Vec<_>>());
+                if !ctx.wants(&fam, &case) {
+                    continue;
+                }
+                let mut f = forest_sprite(lv, 0);
+                let mut k = 0;
+                for ch in f.frames[0].chunks.iter_mut() {
+                    if let Body::Layer(l) = &mut ch.body {
+                        l.flags = words[c[k]];
+                        k += 1;
+                    }
+                }
+                conform(ctx, &fam, &case, &f, &want);
+            }
+        });
+    }
+
     // wide groups: a parent that lies more than 255 / 256 layers before its child
     if ctx.wants_family("wide-groups") {
         let mut cases: Vec<(usize, u32, usize)> = Vec::new();
